@@ -315,30 +315,35 @@ def _exec_fuzzpath(ctx, spec, out):
             pass
         after = snapshot(parent)
         changed = [k for k in before if after.get(k) != before[k]]
-        created_inside = [k for k in after if k not in before and k.split('/')[0] in ('values', 'indices')]
+        created_inside = [k for k in after if k not in before and not (which & 1) and (k.startswith('values/') or k.startswith('indices/'))]
         if changed or created_inside:
             out.viol('protected-file-modified', 'fuzz:path', f'method #{m} with name {name!r} changed {changed[:3] or created_inside[:3]}')
     return out
 
 
-def task_atheris(ctx, col, runs):
+def task_atheris(ctx, col, runs, mode):
     from vlib.fuzzdrive import run_atheris
     from vlib.runner import judge
     names = ['README.txt', 'arrayvalues.bin', 'arraydescription.json', 'metadata.json', 'values/arrayvalues.bin', 'indices/README.txt', 'values', 'notes.txt']
     seeds = [bytes([w]) + n.encode() for w, n in zip((1, 9, 0, 3, 8, 10, 8, 1), names)]
     tokens = names + ['./', '../', '//', '/', '.', '..', 'values/', 'indices/', 'a.darr/', 'r.darr/', '\\', 'README', '.txt', '.bin', '.json']
-    r = run_atheris(ctx, 'c20', runs, seeds, tokens, max_len=64)
+    r = run_atheris(ctx, mode, runs, seeds, tokens, max_len=64)
     col.counters['atheris_executions'] += r['executed']
     col.evaluations += r['executed']
     if not r['available']:
         col.notes.append(r['note'])
         col.counters['atheris_unavailable'] += 1
         return
+    if r['note']:
+        col.notes.append(r['note'])
     if r['finding']:
         spec = {'f': 'fuzzpath', 'which': r['finding']['which'], 'name': r['finding']['name']}
         o = execute(ctx, spec)
-        for v in judge(ctx, col, spec, o):
+        found = judge(ctx, col, spec, o)
+        for v in found:
             col.violation(spec, v)
+        if not found:
+            col.counters['atheris_finding_not_reproduced_by_plain_replay'] += 1
 
 
 def matrix():
@@ -370,5 +375,6 @@ def tasks(ctx):
         t.append((task_matrix, dict(shard=sh)))
         t.append((task_user, dict(shard=sh, n=ctx.pick(400, 2500))))
     if ctx.thorough:
-        t.append((task_atheris, dict(runs=300000)))
+        t.append((task_atheris, dict(runs=250000, mode='c20a')))
+        t.append((task_atheris, dict(runs=250000, mode='c20r')))
     return t
